@@ -180,6 +180,54 @@ func init() {
 			}
 			return nil
 		}
+		// the process-wide source (rand.Shuffle, rand.Intn, rand.Perm): an arbitrary result
+		global := func(p *Path) *randState {
+			if p.globalRand == nil {
+				p.globalRand = &randState{seed: "process-wide source"}
+			}
+			p.globalRand.calls++
+			return p.globalRand
+		}
+		ext["math/rand.Intn"] = func(fr *frame, args []value) value {
+			n := int(asInt64(concretizeIdx(args[0], 64)))
+			if n <= 0 {
+				panic(targetPanic{iface{nil, "invalid argument to Intn"}})
+			}
+			if n == 1 {
+				return 0
+			}
+			return fr.i.p.symIntn(global(fr.i.p), n)
+		}
+		ext["math/rand.Perm"] = func(fr *frame, args []value) value {
+			n := int(asInt64(concretizeIdx(args[0], 16)))
+			return intsToValues(fr.i.p.symPerm(global(fr.i.p), n))
+		}
+		ext["math/rand.Shuffle"] = func(fr *frame, args []value) value {
+			p := fr.i.p
+			n := int(asInt64(args[0]))
+			if n <= 1 {
+				return nil
+			}
+			swap := args[1]
+			perm := p.symPerm(global(p), n)
+			cur := make([]int, n)
+			for i := range cur {
+				cur[i] = i
+			}
+			for i := 0; i < n; i++ {
+				j := i
+				for k := i; k < n; k++ {
+					if cur[k] == perm[i] {
+						j = k
+					}
+				}
+				if j != i {
+					call(fr.i, fr, fr.callpos, swap, []value{i, j})
+					cur[i], cur[j] = cur[j], cur[i]
+				}
+			}
+			return nil
+		}
 		_ = sort.Ints
 		var _ *ssa.Function
 	})
